@@ -790,6 +790,10 @@ impl<Alloc: alloc::Allocator<u16> + alloc::Allocator<u32>> AnyHasher for H9<Allo
                 i -= 1;
                 let mut prev_ix = bucket[i & H9_BLOCK_MASK] as usize;
                 let backward = cur_ix.wrapping_sub(prev_ix);
+                if backward == 0 {
+                    // this position was already stored by a lazy-match probe
+                    continue;
+                }
                 if (backward > max_backward) {
                     break;
                 }
@@ -1742,6 +1746,10 @@ impl<
                 i -= 1;
                 let mut prev_ix = bucket[i & self.specialization.block_mask() as usize] as usize;
                 let backward = cur_ix.wrapping_sub(prev_ix);
+                if backward == 0 {
+                    // this position was already stored by a lazy-match probe
+                    continue;
+                }
                 prev_ix &= ring_buffer_mask;
                 if (cur_ix_masked.wrapping_add(best_len) > ring_buffer_mask
                     || prev_ix.wrapping_add(best_len) > ring_buffer_mask
